@@ -924,8 +924,21 @@ func (g *Gen) execCopy(x *ssa.Call, c *ssa.CallCommon, st *State) {
 	n := g.defineRaw("cpn", g.idxSort().SMT(), sIte(g.idxLt(slen, dlen), slen, dlen))
 	g.setVal(x, Val{T: n, S: g.idxSort(), G: types.Typ[types.Int]})
 	es := g.sortOf(sl.Elem())
-	if es.K == KStruct {
-		g.errorf("copy of struct slices unsupported")
+	if stt, ok := sl.Elem().Underlying().(*types.Struct); ok && !isTimeType(sl.Elem()) && !isOpaqueStruct(sl.Elem()) {
+		darr, doff := fmt.Sprintf("(sl.arr %s)", d.T), fmt.Sprintf("(sl.off %s)", d.T)
+		for i := 0; i < stt.NumFields(); i++ {
+			fname, fsort, _ := g.fieldMapName(sl.Elem(), i)
+			h := g.heapGet(st, fname, fsort)
+			nh := g.fresh("H_" + fname)
+			g.declare(nh, fsort)
+			g.assume("true", fmt.Sprintf("(forall ((q Ptr)) (! (= (select %[1]s q) (ite (and (is-pelem q) (= (pelem.arr q) %[2]s) %[3]s %[4]s) (select %[5]s (pelem (sl.arr %[6]s) %[7]s)) (select %[5]s q))) :pattern ((select %[1]s q))))",
+				nh, darr, g.idxLe(doff, "(pelem.idx q)"), g.idxLt("(pelem.idx q)", g.idxAdd(doff, n)), h, s.T,
+				g.idxAdd(fmt.Sprintf("(sl.off %s)", s.T), g.idxSub("(pelem.idx q)", doff))))
+			st.heap[fname] = nh
+		}
+		return
+	}
+	if es.K == KUnit {
 		return
 	}
 	name, sort := g.elemMapName(es)
